@@ -63,6 +63,9 @@ func serviceRandom(fl *drv.Flags, rng *rand.Rand, w *chain.TraceWriter) {
 			ev["vVol"] = int64(rng.Intn(4))
 		}
 	}
+	// one history in four contains "bursts": several contexts of one consumer created
+	// in one block (all due in its end-block) with funds for only some of them
+	bursty := rng.Intn(4) == 0
 	for b := 0; b < fl.Len; b++ {
 		st := e.last
 		now := st["now"].(int64)
@@ -76,6 +79,9 @@ func serviceRandom(fl *drv.Flags, rng *rand.Rand, w *chain.TraceWriter) {
 		n := rng.Intn(5)
 		if b < 2 {
 			n = 3 + rng.Intn(3)
+		}
+		if bursty && b >= 2 && b%6 == 2 {
+			pending = append(pending, e.burst(rng, st)...)
 		}
 		// providers answer about half of what is asked of them
 		for _, a := range active {
@@ -306,4 +312,47 @@ func serviceRandom(fl *drv.Flags, rng *rand.Rand, w *chain.TraceWriter) {
 		}
 	}
 	e.epilogue()
+}
+
+// burst: the poorest user calls the most expensive available binding k times in
+// one block, k chosen so that its balance pays for some of the batches only.
+func (e *env) burst(rng *rand.Rand, st chain.M) []chain.M {
+	bal := st["bal"].(chain.M)
+	who, low := "", int64(1<<40)
+	for _, u := range e.users {
+		if v := bal[u].(chain.M)[denom].(int64); v < low {
+			who, low = u, v
+		}
+	}
+	svc, prov, price := "", "", int64(0)
+	bind := st["bind"].(chain.M)
+	for _, s := range chain.SortedKeys(bind) {
+		row := bind[s].(chain.M)
+		for _, p := range chain.SortedKeys(row) {
+			r := row[p].(chain.M)
+			if r["available"].(bool) && r["pdenom"].(string) == denom && r["qos"].(int64) == 1 && r["price"].(int64) > price {
+				svc, prov, price = s, p, r["price"].(int64)
+			}
+		}
+	}
+	if price == 0 {
+		return nil
+	}
+	k := low/price + 2 + int64(rng.Intn(2))
+	if k < 3 {
+		k = 3
+	}
+	if k > 8 {
+		return nil // too rich for a shortage within a reasonable number of contexts
+	}
+	var out []chain.M
+	for i := int64(0); i < k; i++ {
+		ev := svcEvent("Call", who)
+		ev["svc"], ev["provs"], ev["amt"], ev["timeout"] = svc, []any{prov}, price+int64(rng.Intn(3)), int64(1)
+		if rng.Intn(3) == 0 {
+			ev["repeated"], ev["total"] = true, int64(2)
+		}
+		out = append(out, ev)
+	}
+	return out
 }
